@@ -318,7 +318,30 @@ func init() {
 	reg("runtime.GC", func(fr *frame, a []Value) Value { return nil })
 	reg("runtime.KeepAlive", func(fr *frame, a []Value) Value { return nil })
 	reg("runtime.SetFinalizer", func(fr *frame, a []Value) Value { return nil })
-	reg("os.Getenv", func(fr *frame, a []Value) Value { return Str{} })
+	// the process environment: empty at the start of every path, settable by the harness
+	reg("os.Getenv", func(fr *frame, a []Value) Value {
+		if v, ok := fr.w.env[concStr(fr, a[0], "env key")]; ok {
+			return v
+		}
+		return Str{}
+	})
+	reg("os.LookupEnv", func(fr *frame, a []Value) Value {
+		if v, ok := fr.w.env[concStr(fr, a[0], "env key")]; ok {
+			return Tuple{v, smt.True}
+		}
+		return Tuple{Str{}, smt.False}
+	})
+	reg("os.Setenv", func(fr *frame, a []Value) Value {
+		if fr.w.env == nil {
+			fr.w.env = map[string]Str{}
+		}
+		fr.w.env[concStr(fr, a[0], "env key")] = a[1].(Str)
+		return Iface{}
+	})
+	reg("os.Unsetenv", func(fr *frame, a []Value) Value {
+		delete(fr.w.env, concStr(fr, a[0], "env key"))
+		return Iface{}
+	})
 	reg("os.Getpid", func(fr *frame, a []Value) Value { return intC(4242) })
 	reg("os.Hostname", func(fr *frame, a []Value) Value { return Tuple{Str{S: "host"}, Iface{}} })
 	reg("os.Exit", func(fr *frame, a []Value) Value {
